@@ -763,7 +763,36 @@ def main():
             untranslatable.append((q, 'translator: %s %s' % (type(e).__name__, e)))
             sig_only_entry(W, tu, cls, layout, node, params, q, mg, sig_only, recs)
 
-    # typedef'd return types (uint8_t etc.) are resolved through clang's desugared type of the declaration when available
+    # payload-level wrappers: every method of an outer payload class whose name is also a method of that class' Header record must be
+    # a pure forwarder `[return] getHeader()->name(params...)` to exactly that Header method
+    global WRAPPERS
+    WRAPPERS = []
+    header_methods = {}
+    for mg, (cls, name, node) in W.methods.items():
+        if cls.endswith('::Header') and cls in layout:
+            header_methods.setdefault(cls, set()).add(name)
+    def bases_of(q):
+        n = W.records.get(q)
+        return [b['type']['qualType'].replace('class ', '').replace('struct ', '') for b in (n.get('bases', []) if n else [])]
+    def header_of(q, depth=0):
+        if q + '::Header' in header_methods:
+            return q + '::Header'
+        if depth > 3:
+            return None
+        for b in bases_of(q):
+            for cand in (b, 'ASAM::CMP::' + b, 'TECMP::' + b):
+                if cand in W.records:
+                    h = header_of(cand, depth + 1)
+                    if h:
+                        return h
+        return None
+    fwd = dict(forwards)
+    for mg, (cls, name, node) in sorted(W.methods.items(), key=lambda kv: (kv[1][0], kv[1][1], kv[0])):
+        if cls.endswith('::Header'):
+            continue
+        h = header_of(cls)
+        if h and name in header_methods[h] and name not in ('getHeader',):
+            WRAPPERS.append((cls + '::' + name, fwd.get(cls + '::' + name, ''), h + '::' + name))
     write_outputs(out, W, layout, recs, methods_out, untranslatable, forwards, sig_only)
 
 def sig_only_entry(W, tu, cls, layout, node, params, q, mg, sig_only, recs):
@@ -830,6 +859,7 @@ def default_inits(W, layout, recs):
 
 UNINIT = []
 ALIASING = []
+WRAPPERS = []
 def W_enum_like(W, dq):
     last = dq.replace('const ', '').split('::')[-1]
     return any(e.split('::')[-1] == last for e in W.enum_widths)
@@ -849,6 +879,10 @@ def write_outputs(out, W, layout, recs, methods_out, untranslatable, forwards, s
     L.append('].\n')
     L.append('Definition gen_forwards : list (string * string) := [')
     L.append(';\n'.join('  (%s, %s)' % (coq_str(a), coq_str(b)) for a, b in sorted(set(forwards))))
+    L.append('].\n')
+    L.append('(* payload-level wrappers of Header accessors: (wrapper, what it forwards to ("" = not a pure forwarder), what it must forward to) *)')
+    L.append('Definition gen_wrappers : list (string * string * string) := [')
+    L.append(';\n'.join('  (%s, %s, %s)' % (coq_str(a), coq_str(b), coq_str(c)) for a, b, c in sorted(set(WRAPPERS))))
     L.append('].\n')
     L.append('Definition gen_untranslatable : list (string * string) := [')
     L.append(';\n'.join('  (%s, %s)' % (coq_str(a), coq_str(b)) for a, b in sorted(set(untranslatable))))
@@ -928,6 +962,41 @@ def write_outputs(out, W, layout, recs, methods_out, untranslatable, forwards, s
         else:
             D.append('            ret = static_cast<unsigned long long>(o->%s(%s)); hasRet = 1;' % (name, call_arg))
         D.append('            memcpy(mem.data(), raw, sizeof(raw));')
+        D.append('            return true;')
+        D.append('        }')
+    D += ['    }', '    return false;', '}']
+    # payload-level wrappers: run the wrapper on a typed payload object constructed over the memory image (harness op FWD)
+    D += ['// GENERATED: runs a payload-level wrapper of a Header accessor on an object built from the image (harness op FWD)',
+          'static bool fwdDispatch(int id, Bytes& mem, unsigned long long arg, unsigned long long arg2, unsigned long long& ret, int& hasRet)', '{',
+          '    (void) arg; (void) arg2; (void) ret; (void) hasRet; (void) mem;', '    switch (id)', '    {']
+    idx['wrappers'] = []
+    by_q = {}
+    for mg, (cls, name, node) in W.methods.items():
+        by_q.setdefault(cls + '::' + name, node)
+    wid = 0
+    for (wq, got, want) in sorted(set(WRAPPERS)):
+        node = by_q.get(wq)
+        if node is None:
+            continue
+        cls, name = wq.rsplit('::', 1)
+        concrete = 'ASAM::CMP::CanPayload' if cls == 'ASAM::CMP::CanPayloadBase' else cls
+        params = [c for c in node['inner'] if c['kind'] == 'ParmVarDecl']
+        if len(params) > 2:
+            continue
+        wid += 1
+        idx['wrappers'].append(dict(id=wid, name=wq, target=want, nparams=len(params)))
+        call_arg = ', '.join('Conv{%s}' % v for p_, v in zip(params, ['arg', 'arg2']))
+        rt = node['type']['qualType'].split('(')[0].strip()
+        D.append('        case %d:  // %s' % (wid, wq))
+        D.append('        {')
+        D.append('            %s o(mem.data(), mem.size());' % concrete)
+        if rt == 'void':
+            D.append('            o.%s(%s);' % (name, call_arg))
+        elif rt == 'float':
+            D.append('            ret = fbits(o.%s(%s)); hasRet = 1;' % (name, call_arg))
+        else:
+            D.append('            ret = static_cast<unsigned long long>(o.%s(%s)); hasRet = 1;' % (name, call_arg))
+        D.append('            mem.assign(o.getRawPayload(), o.getRawPayload() + o.getLength());')
         D.append('            return true;')
         D.append('        }')
     D += ['    }', '    return false;', '}']
